@@ -77,8 +77,9 @@ TreeDefine(h, name, v) ==
     IF h.t = "arr" THEN
         (LET i == IdxOf(name)
          IN  IF i >= 0 /\ i < Len(h.items) THEN [h EXCEPT !.items[i + 1] = v]
-             ELSE IF i = Len(h.items) THEN [h EXCEPT !.items = Append(h.items, v)]
-             ELSE h)                                                 \* not generated
+             ELSE IF i >= Len(h.items) THEN                          \* 15.4.5.1: length becomes i + 1, the gap holds no elements
+                  [h EXCEPT !.items = h.items \o [k \in 1..(i - Len(h.items)) |-> Hole] \o <<v>>]
+             ELSE h)                                                 \* a non-index name on an array: not generated
     ELSE [h EXCEPT !.members = MemDefine(h.members, name, v)]
 
 TreeDelete(h, name) ==
@@ -86,6 +87,12 @@ TreeDelete(h, name) ==
         (LET i == IdxOf(name)
          IN  IF i >= 0 /\ i < Len(h.items) THEN [h EXCEPT !.items[i + 1] = Hole] ELSE h)
     ELSE [h EXCEPT !.members = MemDelete(h.members, name)]
+
+(* assignment to the length of an array (15.4.5.1 step 3): truncate or extend with holes *)
+TreeSetLen(h, n) ==
+    IF h.t # "arr" THEN h
+    ELSE IF n <= Len(h.items) THEN [h EXCEPT !.items = SubSeq(h.items, 1, n)]
+    ELSE [h EXCEPT !.items = h.items \o [k \in 1..(n - Len(h.items)) |-> Hole]]
 
 (* own enumerable property names in Object.keys order *)
 KeysOf(v) ==
@@ -271,6 +278,15 @@ EqModOrder(a, b) ==
 (*   [k |-> "delsib", key, sib]   at key deletes property sib of the holder  *)
 (*   [k |-> "addsib", key, sib]   at key adds property sib = 9 to the holder *)
 (*   [k |-> "throwkey", key]      throws the string "RV" at that key         *)
+(* revivers that restructure their holder while one of its elements is being *)
+(* revived (Walk reads the length / takes the key list ONCE, step 2.a / 2.b); *)
+(* they return the string "gone" for a value that has vanished (undefined):  *)
+(*   [k |-> "setlen", key, n]     at key, if the holder is an array: this.length = n   *)
+(*   [k |-> "push", key, v]       at key, if the holder is an array: this.push(v)      *)
+(*   [k |-> "setel", key, sib, v] at key: this[sib] = v  (v may be a container: it is  *)
+(*                                walked when sib is still to come)                    *)
+S_gone == <<103, 111, 110, 101>>
+Gone(val) == IF val.t = "undef" THEN StrV(S_gone) ELSE val
 S_n  == <<110>>
 S_RV == <<82, 86>>
 ApplyReviver(rv, holder, name, val) ==
@@ -283,6 +299,12 @@ ApplyReviver(rv, holder, name, val) ==
                              holder |-> IF name = rv.key THEN TreeDelete(holder, rv.sib) ELSE holder]
       [] rv.k = "addsib" -> [thr |-> FALSE, ret |-> val,
                              holder |-> IF name = rv.key THEN TreeDefine(holder, rv.sib, IntV(9)) ELSE holder]
+      [] rv.k = "setlen" -> [thr |-> FALSE, ret |-> Gone(val),
+                             holder |-> IF name = rv.key /\ holder.t = "arr" THEN TreeSetLen(holder, rv.n) ELSE holder]
+      [] rv.k = "push" -> [thr |-> FALSE, ret |-> Gone(val),
+                           holder |-> IF name = rv.key /\ holder.t = "arr" THEN [holder EXCEPT !.items = Append(@, rv.v)] ELSE holder]
+      [] rv.k = "setel" -> [thr |-> FALSE, ret |-> Gone(val),
+                            holder |-> IF name = rv.key THEN TreeDefine(holder, rv.sib, rv.v) ELSE holder]
       [] rv.k = "throwkey" -> [thr |-> name = rv.key, ret |-> IF name = rv.key THEN StrV(S_RV) ELSE val, holder |-> holder]
 
 RvEntry(name, val, holder) == [f |-> "rv", k |-> name, v |-> val, h |-> holder]
